@@ -52,6 +52,11 @@ impl<'a> G<'a> {
     fn has_ifdef(&self) -> bool {
         self.sd.dirs.iter().any(|d| d.name == "ifdef")
     }
+    /// is a directive of that name registered?  (`concat` / `tagged` exist in the static flavour only:
+    /// the dynamic API has no way to register an executable directive)
+    fn has_dir(&self, n: &str) -> bool {
+        self.sd.dirs.iter().any(|d| d.name == n)
+    }
     fn want(&mut self, m: &str) -> bool {
         if !self.applied && self.mutation == m && self.rng.chance(1, 2) {
             self.applied = true;
@@ -122,6 +127,8 @@ impl<'a> G<'a> {
                             }
                             V::Obj(fs)
                         }
+                        // a custom scalar without validator (dynamic flavour only): every literal is one
+                        "scalar" if n != "Upload" => [V::Int(3_000_000_000), V::Str("x".into()), V::Bool(true), V::Enum("RED".into()), V::Float("1.5".into()), V::List(vec![V::Int(1), V::Str("y".into())]), V::Obj(vec![("k".into(), V::Int(1))])][self.rng.below(7)].clone(),
                         _ => V::Null,
                     }
                 }
@@ -361,14 +368,14 @@ impl<'a> G<'a> {
             let v = self.value(&TRef::NonNull(Box::new(TRef::Named("Boolean".into()))), false, 0);
             ds.push(Dir { name: nm.into(), args: vec![("if".into(), v)] });
         }
-        if on_field && self.rng.chance(1, 12) {
+        if on_field && self.rng.chance(1, 12) && self.has_dir("concat") {
             let mut args = vec![("prefix".to_string(), V::Str("p".into()))];
             if self.rng.chance(1, 2) {
                 args.push(("n".into(), self.value(&TRef::Named("Int".into()), false, 0)));
             }
             ds.push(Dir { name: "concat".into(), args });
         }
-        if on_field && self.rng.chance(1, 12) {
+        if on_field && self.rng.chance(1, 12) && self.has_dir("tagged") {
             for _ in 0..1 + self.rng.below(2) {
                 ds.push(Dir { name: "tagged".into(), args: if self.rng.chance(1, 2) { vec![("label".into(), V::Str("t".into()))] } else { vec![] } });
             }
